@@ -573,7 +573,7 @@ func (pk *Packet) DisconnectEncode(buf *bytes.Buffer) error {
 
 // DisconnectDecode decodes a Disconnect packet.
 func (pk *Packet) DisconnectDecode(buf []byte) error {
-	if pk.ProtocolVersion == 5 && pk.FixedHeader.Remaining > 1 {
+	if pk.ProtocolVersion == 5 && pk.FixedHeader.Remaining > 0 { // a remaining length of 1 is a reason code without properties [MQTT-3.14.2.2.1]
 		var err error
 		var offset int
 		pk.ReasonCode, offset, err = decodeByte(buf, offset)
